@@ -115,7 +115,7 @@ MonIn(m, r) ==
     IN
     IF p.lkey # 0 /\ c = p.lkey
     THEN \* the active layer is in doubt until kanata has settled again
-         [m0 EXCEPT !.lay = 0 - 1, !.lheld = (r.e = "d"),
+         [m0 EXCEPT !.lay = 0 - 1, !.lheld = (r.e = "d"), !.sp = IF r.e = "d" /\ m.acts # <<>> THEN 0 ELSE @,
                     !.pend = [i \in DOMAIN @ |-> [@[i] EXCEPT !.ly = 0 - 1]],
                     !.gst = "none", !.g = <<>>]
     ELSE IF r.e = "d"
@@ -217,7 +217,8 @@ Individual(m, kc, o) ==
   ELSE IF ~ExpOk(m, o, "")
   THEN Fail(m, "C09 H1/H2: wrong outcome for the pressed key set (individual key instead of the defined chord / sub-chord)")
   ELSE LET before == SubSeq(m.pend, 1, i - 1) IN
-       PopExp([m EXCEPT !.pend = [j \in DOMAIN before |-> [before[j] EXCEPT !.sk = TRUE]]
+       \* (presses that a hidden re-activation may have consumed are left out of the order claim)
+       PopExp([m EXCEPT !.pend = [j \in DOMAIN before |-> IF before[j].hid = 0 THEN [before[j] EXCEPT !.sk = TRUE] ELSE before[j]]
                                  \o SubSeq(m.pend, i + 1, Len(m.pend))])
 
 ReleaseChord(m, ci) ==
